@@ -2,5 +2,5 @@ CONSTANTS MaxPieces = 9
   Mode = "chars"
 INIT Init
 NEXT Next
-INVARIANTS AlgIsCsh AlgIsRef CompileRule PlainIdentical DeweyIsGrammar DeweyAgrees TwoBound Emit
+INVARIANTS AlgIsCsh AlgIsRef CompileRule PlainIdentical DeweyIsGrammar DeweyAgrees TwoBound BestSelf Emit
 CHECK_DEADLOCK FALSE
